@@ -1,6 +1,7 @@
 package dkg_proposal_fsm
 
 import (
+	"bytes"
 	"errors"
 	"fmt"
 	"reflect"
@@ -410,13 +411,23 @@ func (m *DKGProposalFSM) actionMasterKeyConfirmationReceived(inEvent fsm.Event, 
 		return
 	}
 
+	// the public polynomial kept for reconstruction must be the one everybody announced:
+	// an announcement that carries a different one is refused
+	if len(request.PubPolyBz) > 0 && len(m.payload.DKGProposalPayload.PubPolyBz) > 0 &&
+		!bytes.Equal(m.payload.DKGProposalPayload.PubPolyBz, request.PubPolyBz) {
+		err = errors.New("{PubPolyBz} differs from the public polynomial announced before")
+		return
+	}
+
 	dkgProposalParticipant.DkgMasterKey = make([]byte, len(request.MasterKey))
 	copy(dkgProposalParticipant.DkgMasterKey, request.MasterKey)
 	dkgProposalParticipant.Status = internal.MasterKeyConfirmed
 
 	dkgProposalParticipant.UpdatedAt = request.CreatedAt
 	m.payload.DKGProposalPayload.UpdatedAt = request.CreatedAt
-	m.payload.DKGProposalPayload.PubPolyBz = request.PubPolyBz
+	if len(request.PubPolyBz) > 0 {
+		m.payload.DKGProposalPayload.PubPolyBz = request.PubPolyBz
+	}
 
 	m.payload.DKGQuorumUpdate(request.ParticipantId, dkgProposalParticipant)
 
